@@ -35,7 +35,37 @@ type rec struct {
 	Out  string `json:"out"`
 }
 
+// fatal logs one record through Fatal or Fatalf (which end the process) with the handler writing to
+// standard output; the expected call site goes to standard error first.
+func fatal(kind, via string) {
+	opts := logger.NewOptions(logger.LevelDebug, false, true)
+	var h logger.Handler
+	switch kind {
+	case "json":
+		h = logger.NewJsonHandler(os.Stdout, opts)
+	case "text":
+		h = logger.NewTextHandler(os.Stdout, opts)
+	default:
+		h = logger.NewNanoHandler(os.Stdout, opts)
+	}
+	l := logger.New(h).With("w", 2)
+	if via == "Fatal" {
+		atFatal(func() { l.Fatal("m", "k", 1) })
+	}
+	atFatal(func() { l.Fatalf("%s", "m") })
+}
+
+func atFatal(call func()) {
+	_, f, n, _ := runtime.Caller(1)
+	json.NewEncoder(os.Stderr).Encode(rec{File: f, Line: n})
+	call()
+}
+
 func main() {
+	if len(os.Args) == 4 && os.Args[1] == "fatal" {
+		fatal(os.Args[2], os.Args[3])
+		os.Exit(7) // not reached: Fatal / Fatalf end the process with status 1
+	}
 	enc := json.NewEncoder(os.Stdout)
 	ctx := context.Background()
 	for _, kind := range []string{"json", "text", "nano"} {
@@ -68,6 +98,6 @@ func main() {
 		emit("sub.Info", f, n)
 	}
 	if len(os.Args) > 1 {
-		fmt.Fprintln(os.Stderr, "srcprobe takes no arguments")
+		fmt.Fprintln(os.Stderr, "usage: srcprobe | srcprobe fatal <json|text|nano> <Fatal|Fatalf>")
 	}
 }
